@@ -541,8 +541,16 @@ def _sql_sites(prog, mod_name):
                 if isinstance(b, ast.Name):
                     v = single_def(fi, b.id)
                     if many:
-                        site.rows_var = b.id
-                        elts = _rows_tuple(fi, b.id)
+                        rv = b.id
+                        # a chunk of the rows list (rows[i : i + n]) is written with the statement: same row shape
+                        hops = 0
+                        while isinstance(v, ast.Subscript) and isinstance(v.slice, ast.Slice) and isinstance(v.value, ast.Name) and hops < 3:
+                            rv = v.value.id
+                            v = single_def(fi, rv)
+                            hops += 1
+                        site.rows_var = rv
+                        site.chunk_var = b.id if rv != b.id else None
+                        elts = _rows_tuple(fi, rv)
                         if elts is not None:
                             bindings = list(elts)
                     elif isinstance(v, (ast.List, ast.Tuple)):
